@@ -27,7 +27,38 @@ Section G.
     destruct (eg_proof_of K O (public_key sk) (message_generator O C) m b r) as [[[[c1 c2] mp] bp] ch].
     intros. rewrite r_eg_verify_and_decrypt, H by assumption. reflexivity.
   Qed.
+  (* C14, exactness: the translated BlsElGamal::verify_proof accepts exactly when every guard holds and the challenge
+     is the Fiat-Shamir transcript of key, generator, ciphertext and recomputed commitments *)
+  Theorem generated_elgamal_verify_exact (pk : pt K Gpk) (gen : option (pt K Gpk)) (c1 c2 : pt K Gpk) (mp bp ch : car K) :
+    let g := match gen with Some g => g | None => message_generator O C end in
+    gen_BlsElGamal_verify_proof E pk gen c1 c2 mp bp ch = Val (Ok tt)
+    <-> dl pk <> f0 K /\ dl g <> f0 K /\ dl c1 <> f0 K /\ dl c2 <> f0 K /\ mp <> f0 K /\ bp <> f0 K /\ ch <> f0 K
+        /\ ch = eg_transcript O pk g c1 c2 (R1 K c1 ch bp) (R2 K pk g c2 ch mp bp).
+  Proof.
+    intros g. rewrite r_eg_verify_proof.
+    pose proof (C14_verify_exact K laws O C pk gen c1 c2 mp bp ch) as X. cbv zeta in X. fold g in X.
+    split; [intros H; apply X; injection H; auto | intros H; apply X in H; rewrite H; reflexivity].
+  Qed.
+
+  (* C14: the translated verify_and_decrypt opens only proofs that verify under the decryptor's own public key *)
+  Theorem generated_elgamal_uses_own_key (sk : car K) (gen : option (pt K Gpk)) (c1 c2 : pt K Gpk)
+          (mp bp ch : car K) (p : pt K Gpk) :
+    gen_BlsElGamal_verify_and_decrypt E sk gen c1 c2 mp bp ch = Val (Ok p) ->
+    gen_BlsElGamal_verify_proof E (public_key sk) gen c1 c2 mp bp ch = Val (Ok tt) /\ p = eg_decrypt sk c1 c2.
+  Proof.
+    rewrite r_eg_verify_and_decrypt, r_eg_verify_proof. intros H. injection H as H.
+    destruct (C14_uses_own_key K O C sk gen c1 c2 mp bp ch p H) as [Hv Hp]. rewrite Hv. split; [reflexivity|exact Hp].
+  Qed.
+
+  (* C14: the identity recipient key is refused by the translated seal_scalar *)
+  Theorem generated_elgamal_identity_key_refused (pk : pt K Gpk) (m : car K) (gen : option (pt K Gpk))
+          (blinder : option (car K)) (seed : bytes) (k : nat) :
+    dl pk = f0 K -> mfst (gen_BlsElGamal_seal_scalar E pk m gen blinder (seed, k)) = Val (Err InvalidInputs).
+  Proof. intros H. rewrite r_eg_seal_scalar. apply (C14_identity_key_refused K laws O C dbg pk m gen blinder seed k H). Qed.
 End G.
 
 Print Assumptions generated_elgamal_decrypt_correct.
 Print Assumptions generated_elgamal_verify_and_decrypt.
+Print Assumptions generated_elgamal_verify_exact.
+Print Assumptions generated_elgamal_uses_own_key.
+Print Assumptions generated_elgamal_identity_key_refused.
